@@ -350,7 +350,22 @@ func runC02(c *Ctx) {
 				}
 			}
 		}
-		r.Check(ok, "R2.3", "x25.New", c.Pos(fn.Pos()), "returns a reset hash", "x25.New must return the object it called Reset on")
+		if !ok && len(cs) == 0 {
+			// the initial register written in the literal: &X25{crc: 0xFFFF}
+			ok = len(retInstrs(fn)) > 0
+			for _, ret := range retInstrs(fn) {
+				a := underlyingAlloc(ret.Results[0])
+				if a == nil {
+					ok = false
+					continue
+				}
+				k, isC := constInt(litFields(a)["crc"])
+				if litFields(a)["crc"] == nil || !isC || k != 0xFFFF {
+					ok = false
+				}
+			}
+		}
+		r.Check(ok, "R2.3", "x25.New", c.Pos(fn.Pos()), "returns a reset hash", "x25.New must return the object it called Reset on (or a literal whose register is 0xFFFF)")
 	}
 	if fn := c.Fn("pkg/x25", "X25.Sum16"); fn != nil {
 		rets := retInstrs(fn)
